@@ -16,10 +16,12 @@ LEVEL_TEXT = ("Bounded relational contracts, one per rewrite R in {copy, pickle 
               "operations returning a new pipeline leave the original's behaviour unchanged and a later mutation of "
               "either does not affect the other. The rewrites are object-graph surgery on PipeFunc/Pipeline/networkx "
               "objects (copy constructors, weak sets, cached-property invalidation, pickling): no contract within the "
-              "proof rung can carry them ('exploration').")
+              "proof rung can carry them ('exploration'). Proved part (pyvc): only the leaf _axes_from_dims of "
+              "add_mapspec_axis (one ':' per existing dimension of the parameter but one, then the new axis).")
 LEVEL_NOTE = ("Bounds: DAGs of 1..4 functions (tuple outputs, defaults, bound values, renames); compositions of <=2 "
               "rewrites; mutations update_defaults / update_bound. Trusted: reference evaluator rtc/dag.py.")
-TECHNIQUE = "bounded relational contract checking of each rewrite against the reference evaluator (no deductive part)"
+TECHNIQUE = ("bounded relational contract checking of each rewrite against the reference evaluator; leaf "
+             "_axes_from_dims discharged by z3")
 EXPLANATION = LEVEL_TEXT
 RULE = ("random DAG x rewrite (x second rewrite) x every retained output; distinct = distinct (DAG, rewrites); "
         "non-trivial = >=2 functions")
@@ -31,11 +33,15 @@ REWRITES = ["copy", "pickle", "join", "or", "update_renames", "update_renames", 
 
 
 def registry():
-    return {}
+    from contracts import misc
+    return {**{c.short: c for c in misc.ALL}, **{c.name: c for c in misc.ALL}}
 
 
 def proof_items():
-    return []
+    from contracts import misc
+    from vf.driver import ProofItem
+    # add_mapspec_axis: a parameter without a MapSpec gets ':' for each of its existing dimensions, then the new axis
+    return [ProofItem(misc.axes_from_dims, gen=misc.afd_gen)]
 
 
 def _cases(tier, rng):
